@@ -91,7 +91,12 @@ pub fn decide(s: &str, want: Option<&Value>, sub: &str, st: &mut Stats) {
         }
     }
     let out = run_impl(&expr, &value_to_var(&doc));
-    if !agrees(&r, &out) {
+    // a literal denotes exactly its JSON value: compare with the integer / float spelling
+    let exact_ok = match (&p.tree.k, &r, &out) {
+        (K::Literal(_), Ok(crate::reval::V::J(w)), Out::Value(g, _)) => w == g,
+        _ => true,
+    };
+    if !agrees(&r, &out) || !exact_ok {
         st.outcome("VALUE-MISMATCH");
         st.violate(viol("C09/value", sub, s, &doc, ref_brief(&r), out.brief()));
         return;
@@ -106,7 +111,7 @@ pub fn decide(s: &str, want: Option<&Value>, sub: &str, st: &mut Stats) {
     st.sample(|| json!({"expression": s, "result": out.brief()}));
 }
 
-pub const CONTENT: &[char] = &['a', '\'', '"', '`', '\\', 'u', '0', '{', ' ', 'é', '😀'];
+pub const CONTENT: &[char] = &['a', '\'', '"', '`', '\\', 'u', '0', '{', ' ', 'é', '😀', '\n', '\u{1}'];
 pub const VALUE_CHARS: &[char] = &['a', '\'', '"', '`', '\\', 'é', '😀', '\n', '\u{1}', '/', 'u'];
 
 fn spell_raw(v: &str) -> String {
@@ -203,8 +208,11 @@ pub fn run(tier: Tier) -> i32 {
         char_dfs(VALUE_CHARS, p, 2, vk, st, &mut |v, st| generate(v, st));
     });
     st = st.merge(sg);
-    // every JSON value of the document pool as a literal
-    let docs = crate::enumr::pool_full();
+    // every JSON value of the document pool as a literal, plus numeric extremes and spellings
+    let mut docs = crate::enumr::pool_full();
+    for t in ["18446744073709551615", "9223372036854775808", "9223372036854775807", "-9223372036854775808", "1.0", "1e2", "100", "-0.0", "0.30000000000000004", "0.3", "9007199254740993", "1.5e300", "5e-324", "[1, 1.0, 1e0]", "{\"a\": 18446744073709551615, \"b\": [1.0]}"] {
+        docs.push(serde_json::from_str(t).unwrap());
+    }
     let sl = par_sweep(docs, |d, st| {
         let lit = spell_literal(d);
         decide(&lit, Some(d), "generate-literal-json", st);
